@@ -204,7 +204,47 @@ class Ctx:
                 eid, _, clause = line.partition(" ")
                 mism.setdefault(eid, []).append(clause)
         self.traces_validated += n
+        if os.environ.get("VERIF_CORRUPT") and not getattr(self, "_in_corrupt", False):
+            self._in_corrupt = True
+            try:
+                self._corruption_selftest(module, events, mism, timeout, env, cfg)
+            finally:
+                self._in_corrupt = False
         return mism
+
+    # ------------------------------------------------- binding self-test (./selftest)
+    OBS_FIELDS = ("out", "back", "eff", "posts", "file", "after", "afteruid", "o", "iafter", "prof", "endfile", "hasattr", "default")
+
+    def _corruption_selftest(self, module, events, mism, timeout, env, cfg):
+        """corrupt ONE recorded observation in each of a sample of accepted events and expect the trace spec
+        to reject it: demonstrates that the specification is bound to what the code returned"""
+        import copy
+        import random as _r
+        rnd = _r.Random(12345)
+        good = [e for e in events if e.get("id") not in mism and e.get("op") != "env" and any(f in e for f in self.OBS_FIELDS)]
+        stateful = any(e.get("op") == "env" for e in events)
+        if stateful or not good:
+            # stateful traces: corrupt one event per history would need the history; sample whole histories instead
+            return
+        sample = rnd.sample(good, min(40, len(good)))
+        corrupted = []
+        for e in sample:
+            c = copy.deepcopy(e)
+            fields = [f for f in self.OBS_FIELDS if f in c]
+            f = rnd.choice(fields)
+            c[f], how = _mutate(c[f], rnd)
+            if how is None:
+                continue
+            c["id"] = "corrupt-" + str(e["id"])
+            corrupted.append(c)
+        before = (self.traces_validated, self.unjudged, self.states, self.transitions)
+        m2 = self.validate_trace(module, corrupted, shards=1, timeout=timeout, env=env, cfg=cfg)
+        self.traces_validated, self.unjudged, self.states, self.transitions = before
+        rec = self.extra.setdefault("binding_selftest", {})
+        r = rec.setdefault(module, {"corrupted": 0, "rejected": 0})
+        r["corrupted"] += len(corrupted)
+        r["rejected"] += len(m2)
+        print("SELFTEST %s: %d of %d corrupted observations rejected by the trace specification" % (module, len(m2), len(corrupted)))
 
     def validate_histories(self, module, events, groups=None, **kw):
         """Stateful trace specs: the log is a sequence of histories, each starting with an "env" event.
@@ -222,6 +262,38 @@ class Ctx:
         with concurrent.futures.ThreadPoolExecutor(max_workers=groups) as ex:
             for m in ex.map(lambda b: self.validate_trace(module, b, shards=1, **kw) if b else {}, buckets):
                 mism.update(m)
+        if os.environ.get("VERIF_CORRUPT") and not getattr(self, "_in_corrupt", False):
+            self._in_corrupt = True
+            try:
+                import copy
+                import random as _r
+                rnd = _r.Random(54321)
+                clean = [h for h in hists if not any(e.get("id") in mism for e in h) and len(h) > 1]
+                log, nc = [], 0
+                for hi, h in enumerate(rnd.sample(clean, min(25, len(clean)))):
+                    h2 = copy.deepcopy(h)
+                    cands = [e for e in h2[1:] if any(f in e for f in self.OBS_FIELDS)]
+                    if not cands:
+                        continue
+                    e = rnd.choice(cands)
+                    f = rnd.choice([f for f in self.OBS_FIELDS if f in e])
+                    e[f], how = _mutate(e[f], rnd)
+                    if how is None:
+                        continue
+                    for x in h2:
+                        x["id"] = "corrupt%d-%s" % (hi, x.get("id"))
+                    log += h2
+                    nc += 1
+                before = (self.traces_validated, self.unjudged, self.states, self.transitions)
+                m2 = self.validate_trace(module, log, shards=1, **kw) if log else {}
+                self.traces_validated, self.unjudged, self.states, self.transitions = before
+                rejected = len({k.split("-")[0] for k in m2})
+                r = self.extra.setdefault("binding_selftest", {}).setdefault(module, {"corrupted": 0, "rejected": 0})
+                r["corrupted"] += nc
+                r["rejected"] += rejected
+                print("SELFTEST %s: %d of %d histories with one corrupted observation rejected" % (module, rejected, nc))
+            finally:
+                self._in_corrupt = False
         return mism
 
     # ------------------------------------------------------------ bookkeeping
@@ -309,6 +381,37 @@ class Ctx:
         if not os.environ.get("VERIF_KEEP"):
             shutil.rmtree(self.work, ignore_errors=True)
         return rc
+
+
+def _mutate(v, rnd):
+    """change one leaf of a recorded observation; returns (new value, description or None)"""
+    if isinstance(v, bool):
+        return (not v), "flip"
+    if isinstance(v, int):
+        return v + 1, "+1"
+    if isinstance(v, str):
+        return v + "x", "append"
+    if isinstance(v, list):
+        if v and all(isinstance(x, int) and not isinstance(x, bool) for x in v):
+            return v + [120], "append code point"
+        if not v:
+            return v, None
+        idxs = list(range(len(v)))
+        rnd.shuffle(idxs)
+        for i in idxs:
+            nv, how = _mutate(v[i], rnd)
+            if how is not None:
+                return v[:i] + [nv] + v[i + 1:], how
+        return v, None
+    if isinstance(v, dict):
+        keys = [k for k in v if k not in ("exc",)]
+        rnd.shuffle(keys)
+        for k in keys:
+            nv, how = _mutate(v[k], rnd)
+            if how is not None:
+                return dict(v, **{k: nv}), how
+        return v, None
+    return v, None
 
 
 # ------------------------------------------------------------- known findings
